@@ -83,6 +83,16 @@ func hashPatterns(c *Ctx, n int, full bool) [][]byte {
 			b[k] = 1
 		}
 		out = append(out, b)
+		// ... followed by the largest / smallest value of the remaining bytes (digit-count estimates of the legacy text
+		// form are tight exactly there)
+		if k <= 14 {
+			hi, lo := make([]byte, n), make([]byte, n)
+			for i := k; i < n; i++ {
+				hi[i] = 0xff
+			}
+			lo[k] = 1
+			out = append(out, hi, lo)
+		}
 	}
 	stepBits := 1
 	if !full {
@@ -431,8 +441,39 @@ func runC02(c *Ctx) {
 			}
 		}
 	}
+	// a valid 25-byte legacy payload as the low part of a LONGER number: k * 2^256 (or 2^200, 2^208) added on top -- a
+	// decoder with a fixed-width accumulator wraps around to the valid address
+	for _, ver := range []byte{5, 111, 196, 0x1c} {
+		b := append([]byte{ver}, randBytes(r, 20)...)
+		b = append(b, sha256d(b)[:4]...)
+		for _, pad := range []int{7, 0, 1} {
+			for _, top := range []byte{1, 2, 3, 0xff} {
+				q := append(append([]byte{top}, make([]byte, pad)...), b...)
+				for nn := 1; nn <= len(nets); nn++ {
+					decode(c, base58Ref(q), nn)
+				}
+			}
+		}
+	}
 	// F4: hex strings of public-key length with every first byte
 	pks := randPubKeys(c, c.Pick(2, 10))
+	// 130 characters whose first 66 are a complete compressed key: whatever follows (hex or not), it is not that key
+	for _, pk := range pks {
+		if len(pk) != 33 {
+			continue
+		}
+		head := hexLower(pk)
+		for _, tail := range []string{strings.Repeat("0", 64), "g" + strings.Repeat("0", 63), "0g" + strings.Repeat("a", 62), strings.Repeat("a", 63) + "z",
+			"zz" + strings.Repeat("1", 62), " " + strings.Repeat("0", 63), hexLower(pk[1:]) + hexLower(pk[1:])[:0], strings.Repeat("f", 64)} {
+			if len(head)+len(tail) == 130 {
+				decode(c, head+tail, 1)
+				decode(c, strings.ToUpper(head)+tail, 2)
+			}
+		}
+		decode(c, head[:65]+"g", 1)
+		decode(c, head+"0", 1)
+		decode(c, head+"00", 1)
+	}
 	for fb := 0; fb < 256; fb++ {
 		for _, pk := range pks {
 			m := append([]byte{}, pk...)
@@ -687,6 +728,22 @@ func runC03(c *Ctx) {
 		for _, x := range []int{0, 2, 0x2bc830a3, 0x3fffffff, 1 << 29} {
 			b32dec(c, refBech32Const(hrp, data, x))
 		}
+	}
+	// the checksum covers the human-readable part: the data part of a valid string is invalid behind another one --
+	// also right after a decode with that other part failed for a different reason (a foreign character)
+	for k := 0; k < c.Pick(12, 120); k++ {
+		ha, hb := []string{"bc", "tb", "bcrt", "a"}[k%4], []string{"tb", "bc", "x", "bitcoincash"}[k%4]
+		data := make([]byte, 10+r.Intn(30))
+		for i := range data {
+			data[i] = byte(r.Intn(32))
+		}
+		sa := refBech32Const(ha, data, 1)
+		body := sa[len(ha)+1:]
+		b32dec(c, sa)
+		b32dec(c, hb+"1"+body[:len(body)-3]+"b"+body[len(body)-2:]) // fails on the alphabet
+		b32dec(c, hb+"1"+body)                                      // same data, other prefix: checksum mismatch
+		b32dec(c, sa)
+		b32dec(c, refBech32Const(hb, data, 1))
 	}
 	// bech32: valid strings up to 90 chars, substitutions of weight 1..4 in the data part
 	hrps := []string{"a", "bc", "tb", "bcrt", "bitcoincash", randStr(c, "abcdefghijklmnopqrstuvwxyz", 30)}
